@@ -300,3 +300,27 @@ class Scaled(Objective):
 
     def g(self, x):
         return self.base.g(x) * self.s
+
+
+class XScaled(Objective):
+    """fs * base(x / xs): the same problem in other units (tiny / huge magnitudes of x, f and g)."""
+
+    def __init__(self, base: Objective, xs: float, fs: float):
+        super().__init__(base.n)
+        self.base, self.xs, self.fs = base, float(xs), float(fs)
+        self.name = f"xscaled({base.name})"
+        self.convex = base.convex
+        self.analytic = base.analytic
+
+    def f(self, x):
+        v = self.base.f(np.asarray(x) / self.xs) * self.fs
+        return v
+
+    def g(self, x):
+        return self.base.g(np.asarray(x, dtype=float) / self.xs) * (self.fs / self.xs)
+
+    def fmag(self, x):
+        return self.base.fmag(np.asarray(x, dtype=float) / self.xs) * abs(self.fs)
+
+    def curv(self, x):
+        return self.base.curv(np.asarray(x, dtype=float) / self.xs) * abs(self.fs) / self.xs**2
